@@ -17,6 +17,7 @@
   `tree_closed` lifts closure to every expression tree built from closed bodies.
 -/
 import Vita.C13.Lemmas
+import Vita.C01.Lemmas
 
 set_option linter.unusedSimpArgs false
 set_option linter.unusedSectionVars false
@@ -257,6 +258,37 @@ theorem tree_closed (vars : Nat → Val F) (hv : ∀ i, Good (vars i)) :
     intro h
     simp only [Tree.eval]
     exact h.1.1 _ par vars (fun i => ih i (h.2 i)) h.1.2 hv
+
+/-- … and so does vita's interpreter on every well-formed program whose genes carry closed bodies
+    (e.g. any of `Gen.prims`, variables, finite constants) and finite parameters, run on a
+    finite-or-undefined example from ANY interpreter state (by C01's `interp_eq_denote`) -/
+theorem run_closed (g : C01.Genome F) (h : C01.WF g)
+    (hg : ∀ l, Closed (g.gene l).body ∧ isFinite (g.gene l).par = true)
+    (ex : List (Val F)) (hex : ∀ v ∈ ex, Good v) (s : C01.St F) :
+    GoodO (C01.run g ex s).1 := by
+  rw [C01.run_eq_denote g h s ex]
+  show GoodO (C01.denoteF g ex _ _)
+  rw [C01.denoteF_eq_unfold]
+  apply tree_closed
+  · intro i
+    unfold C01.varOf
+    by_cases hi : i < ex.length
+    · have : ex.getD i Val.void = ex[i] := by simp [List.getD, hi]
+      rw [this]; exact hex _ (List.getElem_mem hi)
+    · have : ex.getD i Val.void = Val.void := by
+        have h2 : ex.length ≤ i := by omega
+        simp [List.getD, List.getElem?_eq_none h2]
+      rw [this]; trivial
+  · generalize g.rows - g.best.index = f
+    generalize g.best = l
+    induction f generalizing l with
+    | zero => trivial
+    | succ f ih =>
+      simp only [C01.unfold, Tree.All]
+      refine ⟨hg l, fun i => ?_⟩
+      split
+      · exact ih _
+      · trivial
 
 /-! ### strictness -/
 
@@ -506,7 +538,7 @@ theorem nothrow_real : NoThrow (fun _ v => IsReal v) (Gen.realP : Prog F (Val F)
   obtain ⟨a3, e3, t3⟩ := h 3; obtain ⟨a4, e4, t4⟩ := h 4
   unfold Gen.realP
   simp only [Prog.runPure, e0, e1, e2, e3, e4]
-  cases a0 <;> cases a1 <;> cases a2 <;>
+  cases a0 <;>
     simp_all [IsReal, IsStr, Val.hasValue, Val.withDbl, Val.withStr, Prog.runPure] <;>
     (repeat' split) <;> simp_all [Prog.runPure]
 
@@ -516,7 +548,7 @@ theorem nothrow_integer : NoThrow (fun _ v => IsReal v) (Gen.integerP : Prog F (
   obtain ⟨a3, e3, t3⟩ := h 3; obtain ⟨a4, e4, t4⟩ := h 4
   unfold Gen.integerP
   simp only [Prog.runPure, e0, e1, e2, e3, e4]
-  cases a0 <;> cases a1 <;> cases a2 <;>
+  cases a0 <;>
     simp_all [IsReal, IsStr, Val.hasValue, Val.withDbl, Val.withStr, Prog.runPure] <;>
     (repeat' split) <;> simp_all [Prog.runPure]
 
@@ -526,7 +558,7 @@ theorem nothrow_abs : NoThrow (fun _ v => IsReal v) (Gen.absP : Prog F (Val F)) 
   obtain ⟨a3, e3, t3⟩ := h 3; obtain ⟨a4, e4, t4⟩ := h 4
   unfold Gen.absP
   simp only [Prog.runPure, e0, e1, e2, e3, e4]
-  cases a0 <;> cases a1 <;> cases a2 <;>
+  cases a0 <;>
     simp_all [IsReal, IsStr, Val.hasValue, Val.withDbl, Val.withStr, Prog.runPure] <;>
     (repeat' split) <;> simp_all [Prog.runPure]
 
@@ -536,7 +568,7 @@ theorem nothrow_add : NoThrow (fun _ v => IsReal v) (Gen.addP : Prog F (Val F)) 
   obtain ⟨a3, e3, t3⟩ := h 3; obtain ⟨a4, e4, t4⟩ := h 4
   unfold Gen.addP
   simp only [Prog.runPure, e0, e1, e2, e3, e4]
-  cases a0 <;> cases a1 <;> cases a2 <;>
+  cases a0 <;> cases a1 <;>
     simp_all [IsReal, IsStr, Val.hasValue, Val.withDbl, Val.withStr, Prog.runPure] <;>
     (repeat' split) <;> simp_all [Prog.runPure]
 
@@ -546,7 +578,7 @@ theorem nothrow_aq : NoThrow (fun _ v => IsReal v) (Gen.aqP : Prog F (Val F)) :=
   obtain ⟨a3, e3, t3⟩ := h 3; obtain ⟨a4, e4, t4⟩ := h 4
   unfold Gen.aqP
   simp only [Prog.runPure, e0, e1, e2, e3, e4]
-  cases a0 <;> cases a1 <;> cases a2 <;>
+  cases a0 <;> cases a1 <;>
     simp_all [IsReal, IsStr, Val.hasValue, Val.withDbl, Val.withStr, Prog.runPure] <;>
     (repeat' split) <;> simp_all [Prog.runPure]
 
@@ -556,7 +588,7 @@ theorem nothrow_cos : NoThrow (fun _ v => IsReal v) (Gen.cosP : Prog F (Val F)) 
   obtain ⟨a3, e3, t3⟩ := h 3; obtain ⟨a4, e4, t4⟩ := h 4
   unfold Gen.cosP
   simp only [Prog.runPure, e0, e1, e2, e3, e4]
-  cases a0 <;> cases a1 <;> cases a2 <;>
+  cases a0 <;>
     simp_all [IsReal, IsStr, Val.hasValue, Val.withDbl, Val.withStr, Prog.runPure] <;>
     (repeat' split) <;> simp_all [Prog.runPure]
 
@@ -566,7 +598,7 @@ theorem nothrow_div : NoThrow (fun _ v => IsReal v) (Gen.divP : Prog F (Val F)) 
   obtain ⟨a3, e3, t3⟩ := h 3; obtain ⟨a4, e4, t4⟩ := h 4
   unfold Gen.divP
   simp only [Prog.runPure, e0, e1, e2, e3, e4]
-  cases a0 <;> cases a1 <;> cases a2 <;>
+  cases a0 <;> cases a1 <;>
     simp_all [IsReal, IsStr, Val.hasValue, Val.withDbl, Val.withStr, Prog.runPure] <;>
     (repeat' split) <;> simp_all [Prog.runPure]
 
@@ -576,7 +608,7 @@ theorem nothrow_gt : NoThrow (fun _ v => IsReal v) (Gen.gtP : Prog F (Val F)) :=
   obtain ⟨a3, e3, t3⟩ := h 3; obtain ⟨a4, e4, t4⟩ := h 4
   unfold Gen.gtP
   simp only [Prog.runPure, e0, e1, e2, e3, e4]
-  cases a0 <;> cases a1 <;> cases a2 <;>
+  cases a0 <;> cases a1 <;>
     simp_all [IsReal, IsStr, Val.hasValue, Val.withDbl, Val.withStr, Prog.runPure] <;>
     (repeat' split) <;> simp_all [Prog.runPure]
 
@@ -586,7 +618,7 @@ theorem nothrow_idiv : NoThrow (fun _ v => IsReal v) (Gen.idivP : Prog F (Val F)
   obtain ⟨a3, e3, t3⟩ := h 3; obtain ⟨a4, e4, t4⟩ := h 4
   unfold Gen.idivP
   simp only [Prog.runPure, e0, e1, e2, e3, e4]
-  cases a0 <;> cases a1 <;> cases a2 <;>
+  cases a0 <;> cases a1 <;>
     simp_all [IsReal, IsStr, Val.hasValue, Val.withDbl, Val.withStr, Prog.runPure] <;>
     (repeat' split) <;> simp_all [Prog.runPure]
 
@@ -606,7 +638,7 @@ theorem nothrow_ife : NoThrow (fun i v => i < 2 → IsReal v) (Gen.ifeP : Prog F
   obtain ⟨a3, e3, t3⟩ := h 3; obtain ⟨a4, e4, t4⟩ := h 4
   unfold Gen.ifeP
   simp only [Prog.runPure, e0, e1, e2, e3, e4]
-  cases a0 <;> cases a1 <;> cases a2 <;>
+  cases a0 <;> cases a1 <;>
     simp_all [IsReal, IsStr, Val.hasValue, Val.withDbl, Val.withStr, Prog.runPure] <;>
     (repeat' split) <;> simp_all [Prog.runPure]
 
@@ -616,7 +648,7 @@ theorem nothrow_ifl : NoThrow (fun i v => i < 2 → IsReal v) (Gen.iflP : Prog F
   obtain ⟨a3, e3, t3⟩ := h 3; obtain ⟨a4, e4, t4⟩ := h 4
   unfold Gen.iflP
   simp only [Prog.runPure, e0, e1, e2, e3, e4]
-  cases a0 <;> cases a1 <;> cases a2 <;>
+  cases a0 <;> cases a1 <;>
     simp_all [IsReal, IsStr, Val.hasValue, Val.withDbl, Val.withStr, Prog.runPure] <;>
     (repeat' split) <;> simp_all [Prog.runPure]
 
@@ -626,7 +658,7 @@ theorem nothrow_ifz : NoThrow (fun i v => i < 1 → IsReal v) (Gen.ifzP : Prog F
   obtain ⟨a3, e3, t3⟩ := h 3; obtain ⟨a4, e4, t4⟩ := h 4
   unfold Gen.ifzP
   simp only [Prog.runPure, e0, e1, e2, e3, e4]
-  cases a0 <;> cases a1 <;> cases a2 <;>
+  cases a0 <;>
     simp_all [IsReal, IsStr, Val.hasValue, Val.withDbl, Val.withStr, Prog.runPure] <;>
     (repeat' split) <;> simp_all [Prog.runPure]
 
@@ -636,7 +668,7 @@ theorem nothrow_length : NoThrow (fun _ v => IsStr v) (Gen.lengthP : Prog F (Val
   obtain ⟨a3, e3, t3⟩ := h 3; obtain ⟨a4, e4, t4⟩ := h 4
   unfold Gen.lengthP
   simp only [Prog.runPure, e0, e1, e2, e3, e4]
-  cases a0 <;> cases a1 <;> cases a2 <;>
+  cases a0 <;>
     simp_all [IsReal, IsStr, Val.hasValue, Val.withDbl, Val.withStr, Prog.runPure] <;>
     (repeat' split) <;> simp_all [Prog.runPure]
 
@@ -646,7 +678,7 @@ theorem nothrow_ln : NoThrow (fun _ v => IsReal v) (Gen.lnP : Prog F (Val F)) :=
   obtain ⟨a3, e3, t3⟩ := h 3; obtain ⟨a4, e4, t4⟩ := h 4
   unfold Gen.lnP
   simp only [Prog.runPure, e0, e1, e2, e3, e4]
-  cases a0 <;> cases a1 <;> cases a2 <;>
+  cases a0 <;>
     simp_all [IsReal, IsStr, Val.hasValue, Val.withDbl, Val.withStr, Prog.runPure] <;>
     (repeat' split) <;> simp_all [Prog.runPure]
 
@@ -656,7 +688,7 @@ theorem nothrow_lt : NoThrow (fun _ v => IsReal v) (Gen.ltP : Prog F (Val F)) :=
   obtain ⟨a3, e3, t3⟩ := h 3; obtain ⟨a4, e4, t4⟩ := h 4
   unfold Gen.ltP
   simp only [Prog.runPure, e0, e1, e2, e3, e4]
-  cases a0 <;> cases a1 <;> cases a2 <;>
+  cases a0 <;> cases a1 <;>
     simp_all [IsReal, IsStr, Val.hasValue, Val.withDbl, Val.withStr, Prog.runPure] <;>
     (repeat' split) <;> simp_all [Prog.runPure]
 
@@ -666,7 +698,7 @@ theorem nothrow_max : NoThrow (fun _ v => IsReal v) (Gen.maxP : Prog F (Val F)) 
   obtain ⟨a3, e3, t3⟩ := h 3; obtain ⟨a4, e4, t4⟩ := h 4
   unfold Gen.maxP
   simp only [Prog.runPure, e0, e1, e2, e3, e4]
-  cases a0 <;> cases a1 <;> cases a2 <;>
+  cases a0 <;> cases a1 <;>
     simp_all [IsReal, IsStr, Val.hasValue, Val.withDbl, Val.withStr, Prog.runPure] <;>
     (repeat' split) <;> simp_all [Prog.runPure]
 
@@ -676,7 +708,7 @@ theorem nothrow_mod : NoThrow (fun _ v => IsReal v) (Gen.modP : Prog F (Val F)) 
   obtain ⟨a3, e3, t3⟩ := h 3; obtain ⟨a4, e4, t4⟩ := h 4
   unfold Gen.modP
   simp only [Prog.runPure, e0, e1, e2, e3, e4]
-  cases a0 <;> cases a1 <;> cases a2 <;>
+  cases a0 <;> cases a1 <;>
     simp_all [IsReal, IsStr, Val.hasValue, Val.withDbl, Val.withStr, Prog.runPure] <;>
     (repeat' split) <;> simp_all [Prog.runPure]
 
@@ -686,7 +718,7 @@ theorem nothrow_mul : NoThrow (fun _ v => IsReal v) (Gen.mulP : Prog F (Val F)) 
   obtain ⟨a3, e3, t3⟩ := h 3; obtain ⟨a4, e4, t4⟩ := h 4
   unfold Gen.mulP
   simp only [Prog.runPure, e0, e1, e2, e3, e4]
-  cases a0 <;> cases a1 <;> cases a2 <;>
+  cases a0 <;> cases a1 <;>
     simp_all [IsReal, IsStr, Val.hasValue, Val.withDbl, Val.withStr, Prog.runPure] <;>
     (repeat' split) <;> simp_all [Prog.runPure]
 
@@ -696,7 +728,7 @@ theorem nothrow_sin : NoThrow (fun _ v => IsReal v) (Gen.sinP : Prog F (Val F)) 
   obtain ⟨a3, e3, t3⟩ := h 3; obtain ⟨a4, e4, t4⟩ := h 4
   unfold Gen.sinP
   simp only [Prog.runPure, e0, e1, e2, e3, e4]
-  cases a0 <;> cases a1 <;> cases a2 <;>
+  cases a0 <;>
     simp_all [IsReal, IsStr, Val.hasValue, Val.withDbl, Val.withStr, Prog.runPure] <;>
     (repeat' split) <;> simp_all [Prog.runPure]
 
@@ -706,7 +738,7 @@ theorem nothrow_sqrt : NoThrow (fun _ v => IsReal v) (Gen.sqrtP : Prog F (Val F)
   obtain ⟨a3, e3, t3⟩ := h 3; obtain ⟨a4, e4, t4⟩ := h 4
   unfold Gen.sqrtP
   simp only [Prog.runPure, e0, e1, e2, e3, e4]
-  cases a0 <;> cases a1 <;> cases a2 <;>
+  cases a0 <;>
     simp_all [IsReal, IsStr, Val.hasValue, Val.withDbl, Val.withStr, Prog.runPure] <;>
     (repeat' split) <;> simp_all [Prog.runPure]
 
@@ -716,7 +748,7 @@ theorem nothrow_sub : NoThrow (fun _ v => IsReal v) (Gen.subP : Prog F (Val F)) 
   obtain ⟨a3, e3, t3⟩ := h 3; obtain ⟨a4, e4, t4⟩ := h 4
   unfold Gen.subP
   simp only [Prog.runPure, e0, e1, e2, e3, e4]
-  cases a0 <;> cases a1 <;> cases a2 <;>
+  cases a0 <;> cases a1 <;>
     simp_all [IsReal, IsStr, Val.hasValue, Val.withDbl, Val.withStr, Prog.runPure] <;>
     (repeat' split) <;> simp_all [Prog.runPure]
 
@@ -726,7 +758,7 @@ theorem nothrow_sigmoid : NoThrow (fun _ v => IsReal v) (Gen.sigmoidP : Prog F (
   obtain ⟨a3, e3, t3⟩ := h 3; obtain ⟨a4, e4, t4⟩ := h 4
   unfold Gen.sigmoidP
   simp only [Prog.runPure, e0, e1, e2, e3, e4]
-  cases a0 <;> cases a1 <;> cases a2 <;>
+  cases a0 <;>
     simp_all [IsReal, IsStr, Val.hasValue, Val.withDbl, Val.withStr, Prog.runPure] <;>
     (repeat' split) <;> simp_all [Prog.runPure]
 
@@ -736,7 +768,7 @@ theorem nothrow_sife : NoThrow (fun _ _ => True) (Gen.sifeP : Prog F (Val F)) :=
   obtain ⟨a3, e3, t3⟩ := h 3; obtain ⟨a4, e4, t4⟩ := h 4
   unfold Gen.sifeP
   simp only [Prog.runPure, e0, e1, e2, e3, e4]
-  cases a0 <;> cases a1 <;> cases a2 <;>
+  cases a0 <;> cases a1 <;>
     simp_all [IsReal, IsStr, Val.hasValue, Val.withDbl, Val.withStr, Prog.runPure] <;>
     (repeat' split) <;> simp_all [Prog.runPure]
 
